@@ -616,9 +616,17 @@ def bypass_only_when_disabled(car, ebb, top_sites, exp):
                 if o[0] == "call" and o[2]["callee"].get("full", o[2]["callee"].get("path")) and LE in (o[2]["callee"].get("full") or ""):
                     val = [a[0] for a in t["arms"] if a[1] == taken]
                     if val and val[0] == 0 and taken != t["otherwise"] or (not val and False):
-                        ok = True
+                        # ... and the level that failed is the span's own (a ret/err event's more verbose level may be
+                        # disabled while the span itself is wanted)
+                        lvl = level_const(car, car.origin(o[2]["argv"][0])) if o[2].get("argv") else None
+                        if lvl is not None and lvl != LEVELS[exp["level"]]:
+                            problems.append("the span is skipped because level %s failed the max-level test, but the span's own level is %s: with a collector "
+                                            "whose hint lies between the two the body runs outside any span" % (lvl, exp["level"]))
+                        else:
+                            ok = True
             if not ok:
-                problems.append("the body can be reached without entering the span on a path that never saw `level <= max level` fail")
+                if not problems:
+                    problems.append("the body can be reached without entering the span on a path that never saw `level <= max level` fail")
                 break
             continue
         for s in car.succ(bb):
